@@ -32,6 +32,11 @@ pub fn node_index(name: &str) -> u16 {
 }
 
 pub fn addr_of(name: &str) -> SocketAddr {
+    // "n5" advertises an IPv4-mapped IPv6 address (a dual-stack deployment): its identity must survive
+    // every encode / decode unchanged
+    if name == "n5" {
+        return SocketAddr::new(std::net::IpAddr::V6(std::net::Ipv4Addr::new(127, 0, 0, 1).to_ipv6_mapped()), 10000 + node_index(name));
+    }
     SocketAddr::from(([127, 0, 0, 1], 10000 + node_index(name)))
 }
 
